@@ -47,6 +47,9 @@ var strPoolBase = []string{"a", "A", "ab", "Ab", "aB", "AB", "abc", "abd", "b", 
 var tagPool = []string{"red", "Red", "RED", "green", "blue", "Blue", "x", "X", "y", "tag1", "tag2", "é", "É"}
 var vocab = []string{"the", "a", "of", "and", "wizard", "Wizard", "gandalf", "Gandalf", "frodo", "ring", "rings", "mountain", "fire", "shadow", "king", "return", "hobbit", "elf", "dwarf", "sword", "quest", "dark", "tower", "two", "fellowship", "journey", "dragon", "gold", "river", "forest", "is", "to", "in", "it", "über", "café", "naïve", "日本", "x1", "42", "!!!", "...", "-", "don't", "e-mail"}
 
+// a property name of 47 bytes: map keys of 32 bytes and more are not written with the one-byte string header
+const c05LongName = "a_text_property_with_a_name_longer_than_31bytes"
+
 func newGen(profile string, seed uint64, idx int) *genState {
 	pcg := rand.NewPCG(seed, uint64(idx)*0x9E3779B97F4A7C15+77)
 	r := rand.New(pcg)
@@ -143,7 +146,7 @@ func (g *genState) pickSchema(idx int) schemaSpec {
 		}
 		return sc
 	case "c05":
-		return schemaSpec{{path: []string{"txt", "meta.body"}[idx%2], kind: ixText}, {path: "i", kind: ixInt}, {path: "tags", kind: ixStrArr, caseSens: true}}
+		return schemaSpec{{path: []string{"txt", "meta.body", c05LongName}[idx%3], kind: ixText}, {path: "i", kind: ixInt}, {path: "tags", kind: ixStrArr, caseSens: true}}
 	case "c01":
 		switch idx % 6 {
 		case 0:
